@@ -118,6 +118,9 @@ def run(check, prog):
     from . import c01, c05
     c01.f5_state(check, prog)
     c05.f2py_coordinate_roles(check, prog)
+    # inside the lens wrapper the solver is asked for azimuths in [0, 2 pi): the
+    # compiled code terminates the process on an angle out of range
+    c05.phi_quadrature(check, prog)
 
 
 def stops(check, prog, root):
@@ -146,6 +149,37 @@ def stops(check, prog, root):
                             '%s sources' % (ent, sites[0], gname))
                 continue
             check.note('reachable units', '%s:%s -> %d units' % (gname, ent, len(reach)))
+            eu = fp.units[ent.upper()] if ent.upper() in fp.units else None
+            if eu is not None:
+                # E7: the routine Python calls keeps nothing of its own from one call
+                # to the next (no SAVEd / initialised / DATA locals) ...
+                from hpstatic.fortran import persistent_names, written_names
+                pn = persistent_names(eu)
+                wn = written_names(eu)
+                carried = sorted(wn if pn is None else (pn & wn))
+                check.require(not carried, 'E7-entry-keeps-no-state',
+                              '%s::%s' % (os.path.basename(eu.path), eu.name),
+                              'no local of the f2py entry routine that is assigned in it '
+                              'persists between calls (constants set by DATA are fine)',
+                              '%s:%d' % (eu.path, eu.line),
+                              fail_detail='locals %s keep their value between calls '
+                              '(%s) and are assigned: a result can then depend on the '
+                              'previous call' % (carried, [t[:50] for _, t in eu.persistent]))
+                if eu.name == 'AMPLD':
+                    # ... and the T-matrix (kept in COMMON for the per-angle calls)
+                    # is recomputed for the particle of *this* call, unconditionally,
+                    # before any per-angle evaluation uses it
+                    solve = [c for c in eu.call_sites if c[1] == 'AMP_SCAT_MATRIX']
+                    use = [c for c in eu.call_sites if c[1] == 'AMPL']
+                    ok = len(solve) >= 1 and any(
+                        not c[2] and c[3] is None and
+                        all(c[0] < u_[0] for u_ in use) for c in solve)
+                    check.require(ok, 'E7-entry-keeps-no-state', 'S.f::AMPLD solves first',
+                                  'CALL AMP_SCAT_MATRIX is executed on every call, before '
+                                  'the per-angle CALL AMPL', '%s:%d' % (eu.path, eu.line),
+                                  fail_detail='AMP_SCAT_MATRIX called at %s; AMPL at %s' % (
+                                      [(c[0], c[2], c[3]) for c in solve],
+                                      [(c[0], c[2]) for c in use]))
             for uname, path in sorted(reach.items()):
                 u = fp.units[uname]
                 check.note('fortran units analysed', '%s::%s' % (u.path, u.name))
